@@ -1,0 +1,32 @@
+//go:build verif
+
+package prunner
+
+// Instrumentation for the verification harness (only compiled with the "verif" build tag).
+//
+// VerifAccessHook, if set, is called at the sites that access the state guarded by PipelineRunner.mx, from inside the
+// critical section. The lock mode is probed from the inside: TryRLock succeeds only if no writer holds (or waits for)
+// the lock, TryLock succeeds only if nobody holds it - both probes can only err towards "held".
+
+// VerifAccessHook receives the site name, whether the site mutates guarded state, and the probe results.
+var VerifAccessHook func(site string, mutates bool, writeHeld bool, anyHeld bool)
+
+func (r *PipelineRunner) verifAccess(site string, mutates bool) {
+	h := VerifAccessHook
+	if h == nil {
+		return
+	}
+	writeHeld := true
+	if r.mx.TryRLock() {
+		r.mx.RUnlock()
+		writeHeld = false
+	}
+	anyHeld := true
+	if !writeHeld {
+		if r.mx.TryLock() {
+			r.mx.Unlock()
+			anyHeld = false
+		}
+	}
+	h(site, mutates, writeHeld, anyHeld)
+}
